@@ -115,13 +115,14 @@ func c18Context() map[string]interface{} {
 		// YAML-style maps nested in string-keyed maps and lists (what a config file decodes to)
 		"cfg": map[string]interface{}{"ports": map[interface{}]interface{}{443: "https", 80: "http"}, "names": map[interface{}]interface{}{"a": 1, 2: "b"},
 			"list": []interface{}{map[interface{}]interface{}{1: "one"}, map[interface{}]interface{}{"k": []interface{}{map[interface{}]interface{}{true: 1}}}}},
-		"a":    "str",
-		"csv":  "c,a,b",
-		"n":    5,
-		"f":    1.5,
-		"t":    true,
-		"nil":  nil,
-		"when": time.Date(2024, 3, 5, 14, 7, 9, 0, time.UTC),
+		"withnil": c18SpareIface([]interface{}{3, nil, 12, 7, nil, 1}, 3),
+		"a":       "str",
+		"csv":     "c,a,b",
+		"n":       5,
+		"f":       1.5,
+		"t":       true,
+		"nil":     nil,
+		"when":    time.Date(2024, 3, 5, 14, 7, 9, 0, time.UTC),
 	}
 }
 
@@ -324,6 +325,9 @@ var c18Fixed = []string{
 	"{% block b %}{% spaceless %}{% import 'lib' as zz6 %}{% endspaceless %}{% endblock %}",
 	"{% verbatim %}{% set a = 1 %}{% endverbatim %}{% spaceless %}{% from 'lib' import f as zz7 %}{% endspaceless %}",
 	"{% macro mm(q) %}{% set a = q %}{{ a }}{% endmacro %}{{ mm('inner') }}{{ _self.mm(n) }}{{ a }}",
+	// functions handed a whole sequence from the context (also one holding nulls), spread or not
+	"{{ max(withnil) }}|{{ min(withnil) }}|{{ max(xs) }}|{{ min(xs) }}|{{ max(is) }}|{{ max(xs, 9) }}|{{ min(withnil, 0) }}|{{ max(withnil|slice(0, 3)) }}|{{ cycle(withnil, 1) }}|{{ range(1, 3)|merge(withnil)|length }}|{{ withnil|length }}",
+	"{{ withnil|default([])|join(',') }}|{{ withnil|first }}|{{ withnil|last }}|{{ withnil|sort|join(',') }}|{{ withnil|reverse|join(',') }}|{{ withnil|slice(1, 2)|join(',') }}|{{ withnil|merge([0])|join(',') }}|{{ withnil|json_encode }}|{{ withnil|keys|join }}",
 	// encoders and printers over nested maps with non-string keys
 	"{{ cfg|json_encode }}|{{ cfg.ports|json_encode }}|{{ cfg.ports|keys|json_encode }}|{{ cfg.list|json_encode }}|{{ [cfg.names]|json_encode }}|{{ {'w': cfg.ports}|json_encode }}|{{ cfg.list|first|keys|join }}",
 	"{{ dump(cfg) }}{{ cfg.ports|keys|sort|join(',') }}{{ cfg.names|length }}{% for k, v in cfg.ports %}{{ k }}={{ v }};{% endfor %}{{ cfg.ports|merge({'x': 1})|length }}{{ cfg }}",
